@@ -331,6 +331,26 @@ def degree_vectors(ctx):
             if idx is None:
                 kind = "?"
                 why = "index is not NodeIndex::index(id)"
+            elif strip_refs(idx).kind == "call" and strip_refs(idx)[1].endswith(("Edge::<E, Ix>::target", "Edge::<E, Ix>::source")):
+                # one increment per raw edge: incoming[edge.target()] / outgoing[edge.source()]
+                ie = strip_refs(idx)
+                esrc = sources_of_expr(ctx, b, strip_refs(ie[2][0]))
+                from_raw = bool(esrc) and all(s.kind == "alloc" and s[4].endswith("::raw_edges") and "$item" in s[3] for s in esrc)
+                kind = ("in" if ie[1].endswith("::target") else "out") if from_raw else "?"
+                why = "raw-edge %s" % ie[1].split("::")[-1]
+                if kind != "?":
+                    okw, whyw = full_raw_edge_walk(ctx, b, st["bb"])
+                    if not okw:
+                        kind = "?"
+                        why = whyw
+                inc_ok = v.kind == "binop" and v[1] == "Add" and (is_const(v[3], 1) or is_const(v[2], 1))
+                for a in allocs:
+                    key = (a[1], a[2])
+                    prev = kinds.get(key)
+                    k2 = kind if inc_ok else "?"
+                    kinds[key] = k2 if prev in (None, k2) else "?"
+                    details.setdefault(key, []).append((b, st, why, fmt_expr(v, b)))
+                continue
             else:
                 isrcs = sources_of_expr(ctx, b, idx)
                 walk = set()
@@ -363,6 +383,33 @@ def degree_vectors(ctx):
                 kinds[key] = k2 if prev in (None, k2) else "?"
                 details.setdefault(key, []).append((b, st, why, fmt_expr(v, b)))
     return kinds, details
+
+
+def full_raw_edge_walk(ctx, body, bb):
+    """the store at bb runs once for every element of raw_edges(): body of an
+    unfiltered `for`/for_each over it, unconditional, no early exit"""
+    fl = ctx.model.flow
+    lr = loop_region(ctx, body, bb)
+    if lr is not None:
+        chain = iterator_chain(ctx, body, lr["iter_expr"]) if lr.get("iter_expr") is not None else []
+        names = [c[0] for c in chain]
+        if [x for x in names if x in SELECTIVE_ITER] or not any(x.endswith("::raw_edges") for x in names):
+            return False, "edge loop is narrowed / not over raw_edges(): %s" % names
+        if lr["early_exits"]:
+            return False, "edge loop can be left early"
+        gs = [g for g in cond_guards(body, bb) if g[0] in lr["blocks"] and g[0] != lr.get("switch_bb")]
+        if gs:
+            return False, "degree increment is conditional inside the edge loop"
+        return True, ""
+    if body.kind == "closure":
+        uses = fl.closure_uses(body)
+        if len(uses) == 1 and callee_path(uses[0][2]) == "std::iter::Iterator::for_each":
+            pb, ubb, ut, ai = uses[0]
+            names = [c[0] for c in iterator_chain(ctx, pb, expr_operand(pb, ut["args"][0]))]
+            if not [x for x in names if x in SELECTIVE_ITER] and any(x.endswith("::raw_edges") for x in names) and \
+                    not cond_guards(body, bb) and not cond_guards(pb, ubb):
+                return True, ""
+    return False, "degree increment is not in an unfiltered loop over raw_edges()"
 
 
 def full_edge_walk(ctx, body):
